@@ -435,10 +435,22 @@ func (p *Proxy) handleConnectRequest(ctx *Context, req *http.Request, session *S
 
 	cbr := bufio.NewReader(cconn)
 
+	// When one direction has delivered everything and seen end-of-stream, the receiving end is
+	// told so right away by shutting down the sending side of its connection; waiting for the
+	// opposite direction to finish first would leave it hanging until an idle timeout.
+	closeWrite := func(c net.Conn) {
+		if cw, ok := c.(interface{ CloseWrite() error }); ok {
+			cw.CloseWrite()
+			return
+		}
+		c.Close()
+	}
+
 	copySync := func(w net.Conn, r io.Reader, donec chan<- bool) {
 		if _, err := io.Copy(w, r); err != nil && err != io.EOF {
 			log.Errorf("martian: failed to copy CONNECT tunnel: %v", err)
 		}
+		closeWrite(w)
 
 		log.Debugf("martian: CONNECT tunnel finished copying")
 		donec <- true
